@@ -2411,6 +2411,17 @@ class sptensor:
                         # An empty region of this mode (handled like any other
                         # empty slice: nothing is assigned there)
                         entry = slice(0, 0)  # noqa: PLW2901
+                elif (
+                    isinstance(entry, slice)
+                    and extent is None
+                    and entry.step is not None
+                    and entry.step < 0
+                ):
+                    # (its stop would be taken for the size of the new mode)
+                    assert False, (
+                        "Must have well defined slice when expanding sptensor "
+                        "shape with setitem"
+                    )
                 elif isinstance(entry, slice) and extent is not None:
                     start, stop = entry.start, entry.stop
                     if start is not None and start < 0:
